@@ -136,6 +136,23 @@ CHECKS["C15"] = dict(
     technique="TLA+ spec (CacheDesign) model-checked with TLC over all crash points; every TLC history replayed with crash "
               "injection into FileSet.save_cache/load_cache")
 
+CHECKS["C10"] = dict(
+    text="PoolProps.tla states Order / Once / Bound / Errors / Complete over the observable events of one call; "
+         "PoolDesign.tla (FIFO executor with W workers, map submitting everything, imap with a deque of <= W futures blocking "
+         "on the oldest, failing tasks, error_to_warning) is model-checked against it for all interleavings incl. termination "
+         "under weak fairness; every feasible completion order per fault choice is forced on the real map / imap / collect / "
+         "icollect through a gated ThreadPoolExecutor installed via typhon.files.fileset.ThreadPoolExecutor, and the recorded "
+         "submit/start/finish/consume/raise logs are validated against PoolProps by TLC (PoolTrace). align() is driven with "
+         "random gated schedules of both loaders and compared with the match list (pairs, order, each needed secondary read "
+         "once, skip_errors); process pools are run ungated and judged on order and completeness.",
+    ref="DESIGN.md §5 C10",
+    note="Trusted: TLC, PoolProps (~45 lines), the gated executor (time-outs only detect a stuck replay: the schedule is "
+         "then released and the run is still judged on PoolProps; the evidence counts such runs). Bounds: n <= 4 (quick) / 6 "
+         "files, W <= 3, at most one failing file per schedule plus the all-files-fail cases. AlignDesign of DESIGN.md is "
+         "not written: align is checked by replay only.",
+    technique="TLA+ spec (PoolProps/PoolDesign) model-checked with TLC incl. liveness; TLC completion orders forced on "
+              "FileSet.map/imap via a gated executor; recorded event logs validated by TLC (PoolTrace)")
+
 NOT_APPLICABLE = {
     "C07": "Every clause concerns floating-point accuracy of sin/cos/arctan2/sqrt compositions or convergence of a "
            "fixed-point iteration over a continuous domain; TLA+/TLC has no reals or transcendental functions and there "
